@@ -1,3 +1,329 @@
 import GnpyModel
-/- Property theorems for C09 (only the property theorems and their non-vacuity examples live here;
-   helper lemmas go to GnpyProofs/Lemmas). -/
+import GnpyProofs.Lemmas.DesignNum
+import GnpyProofs.Lemmas.ChainPad
+import GnpyProofs.Props.C08
+/- Property theorems for C09 — designed gains close the power budget and follow the documented power rule.
+   Model: GnpyModel/Design.lean (`ampStep` = set_one_amplifier + set_amplifier_voa, `designAmps` = the walk of
+   set_egress_amplifier, `targetPower`, `round2float`).  All statements over ℝ, for every configuration. -/
+namespace Gnpy.Chain
+
+/-! ### the documented rule: rounding and clamping -/
+
+/-- Python's `round(x, 0)` is never further than 1/2 from `x` -/
+theorem rint_error (x : ℝ) : |(Rint.rint x : ℝ) - x| ≤ 1 / 2 := realRint_error x
+
+/-- `round2float(x, step)` is within `s/2 + 0.05` of `x` for the effective step `s = round(step, 1) ≥ 0.01`,
+and within `0.005` when the step is (rounded to) zero -/
+theorem round2float_error (x step : ℝ) (hs : 0 ≤ round1 step) :
+    (1 / 100 ≤ round1 step → |round2float x step - x| ≤ round1 step / 2 + 1 / 20) ∧
+    (round1 step < 1 / 100 → |round2float x step - x| ≤ 1 / 200) := by
+  constructor
+  · intro h
+    have hpos : 0 < round1 step := by linarith
+    simp only [round2float, hundredth, Nat.cast_one, Nat.cast_ofNat]
+    rw [if_pos h]
+    set s := round1 step with hsdef
+    have e1 := round1_error (Rint.rint (x / s) * s)
+    have e2 := realRint_error (x / s)
+    rw [rint_real]
+    rw [rint_real] at e1
+    have e3 : |realRint (x / s) * s - x| ≤ s / 2 := by
+      have : realRint (x / s) * s - x = (realRint (x / s) - x / s) * s := by field_simp
+      rw [this, abs_mul, abs_of_pos hpos]
+      nlinarith [abs_nonneg (realRint (x / s) - x / s)]
+    calc |round1 (realRint (x / s) * s) - x|
+        = |(round1 (realRint (x / s) * s) - realRint (x / s) * s) + (realRint (x / s) * s - x)| := by ring_nf
+      _ ≤ |round1 (realRint (x / s) * s) - realRint (x / s) * s| + |realRint (x / s) * s - x| := abs_add_le _ _
+      _ ≤ s / 2 + 1 / 20 := by linarith
+  · intro h
+    simp only [round2float, hundredth, Nat.cast_one, Nat.cast_ofNat]
+    rw [if_neg (not_le.mpr h)]
+    exact round2_error x
+
+/-- **0 before a ROADM** -/
+theorem targetPower_roadm (c : Cfg ℝ) (l : ℝ) : targetPower c true l = 0 := by
+  simp [targetPower]
+
+/-- **clamped to the configured range** -/
+theorem targetPower_range (c : Cfg ℝ) (l : ℝ) (h : c.dpLo ≤ c.dpHi) :
+    c.dpLo ≤ targetPower c false l ∧ targetPower c false l ≤ c.dpHi := by
+  simp only [targetPower, Bool.false_eq_true, if_false, pmin_eq, pmax_eq]
+  exact ⟨le_min h (le_max_left _ _), min_le_left _ _⟩
+
+/-- **slope × (next span loss − reference), rounded to the step**: when the rounded value lies inside the range the
+target is that value, and it is within `s/2 + 0.05` of `slope·(loss − ref)` -/
+theorem dp_rule_rounding (c : Cfg ℝ) (l : ℝ) (hs : 1 / 100 ≤ round1 c.dpStep)
+    (hlo : c.dpLo ≤ round2float ((l - c.lossRef) * c.slope) c.dpStep)
+    (hhi : round2float ((l - c.lossRef) * c.slope) c.dpStep ≤ c.dpHi) :
+    targetPower c false l = round2float ((l - c.lossRef) * c.slope) c.dpStep ∧
+    |targetPower c false l - c.slope * (l - c.lossRef)| ≤ round1 c.dpStep / 2 + 1 / 20 := by
+  have e : targetPower c false l = round2float ((l - c.lossRef) * c.slope) c.dpStep := by
+    simp only [targetPower, Bool.false_eq_true, if_false, pmin_eq, pmax_eq]
+    rw [max_eq_right hlo, min_eq_right hhi]
+  refine ⟨e, ?_⟩
+  rw [e, mul_comm c.slope]
+  exact (round2float_error _ _ (by linarith)).1 hs
+
+/-! ### one amplifier -/
+
+/-- **Where the operator set no offset it is the documented rule** (plus the operator's VOA, so that the power entering
+the next span is the rule's value): `dp = target_power(next) + out_voa`. -/
+theorem dp_rule (c : Cfg ℝ) (pref prefTotal prevDp prevVoa : ℝ) (a : AmpIn ℝ) (hu : a.user.deltaP = none)
+    (hm : c.powerMode = true) :
+    (ampStep c pref prefTotal prevDp prevVoa a).dp0 = targetPower c a.nextIsRoadm a.nextLoss + a.user.outVoa.getD 0 ∧
+    (ampStep c pref prefTotal prevDp prevVoa a).retDp - (ampStep c pref prefTotal prevDp prevVoa a).retVoa
+      = targetPower c a.nextIsRoadm a.nextLoss + (ampStep c pref prefTotal prevDp prevVoa a).reduction := by
+  simp only [ampStep, computeTargets, hu, hm, truthy_eq]
+  cases a.user.gain <;> simp <;> ring
+
+/-- **Each amplifier's gain equals the loss since the previous amplifier plus the change of target** (and its input
+VOA): `gain = node_loss + _delta_p − (prev_dp − prev_voa) + in_voa`, in power mode and in gain mode, whatever the
+user settings, reduction or VOA optimisation. -/
+theorem gain_closes_budget (c : Cfg ℝ) (pref prefTotal prevDp prevVoa : ℝ) (a : AmpIn ℝ) :
+    (ampStep c pref prefTotal prevDp prevVoa a).gain
+      = a.nodeLoss + (ampStep c pref prefTotal prevDp prevVoa a).dpInt - (prevDp - prevVoa)
+        + (ampStep c pref prefTotal prevDp prevVoa a).inVoa := by
+  simp only [ampStep, computeTargets, truthy_eq]
+  cases hg : a.user.gain <;> cases hm : c.powerMode <;> cases hv : a.user.outVoa <;> cases ha : a.sel.outVoaAuto <;>
+    cases hd : a.user.deltaP <;> simp <;> ring
+
+/-- what the next amplifier sees (`prev_dp − prev_voa`) is what leaves this one after its VOA (`_delta_p − out_voa`) -/
+theorem net_offset (c : Cfg ℝ) (pref prefTotal prevDp prevVoa : ℝ) (a : AmpIn ℝ) :
+    (ampStep c pref prefTotal prevDp prevVoa a).dpInt - (ampStep c pref prefTotal prevDp prevVoa a).outVoa
+      = (ampStep c pref prefTotal prevDp prevVoa a).retDp - (ampStep c pref prefTotal prevDp prevVoa a).retVoa := by
+  simp only [ampStep, computeTargets, truthy_eq]
+  cases hg : a.user.gain <;> cases hm : c.powerMode <;> cases hv : a.user.outVoa <;> cases ha : a.sel.outVoaAuto <;>
+    cases hd : a.user.deltaP <;> simp
+
+/-- **The reference channel leaves every amplifier at reference power + its power offset** (and the fibre after the VOA
+sees `p_ref + _delta_p − out_voa`): by induction along any OMS, for every mix of user settings, provided the loss
+the design used for each span (`node_loss`) is the loss the channel really sees. -/
+theorem ref_power_invariant (c : Cfg ℝ) (pref prefTotal : ℝ) :
+    ∀ (steps : List (Step ℝ)) (p pd pv : ℝ), p = pref + pd - pv →
+      (∀ s ∈ steps, s.trueLoss = s.inp.nodeLoss) →
+      refPowers c pref prefTotal p pd pv steps = refTargets c pref prefTotal pd pv steps := by
+  intro steps
+  induction steps with
+  | nil => intro p pd pv _ _; simp [refPowers, refTargets]
+  | cons s rest ih =>
+    intro p pd pv hp hl
+    simp only [refPowers, refTargets]
+    have hs : s.trueLoss = s.inp.nodeLoss := hl s (by simp)
+    have hb := gain_closes_budget c pref prefTotal pd pv s.inp
+    have hn := net_offset c pref prefTotal pd pv s.inp
+    have e1 : p - s.trueLoss - (ampStep c pref prefTotal pd pv s.inp).inVoa + (ampStep c pref prefTotal pd pv s.inp).gain
+        = pref + (ampStep c pref prefTotal pd pv s.inp).dpInt := by
+      rw [hb, hs, hp]; ring
+    rw [e1]
+    congr 1
+    apply ih
+    · linarith
+    · intro s' hs'
+      exact hl s' (by simp [hs'])
+
+/-! ### saturation -/
+
+/-- the reduction is never positive: design only ever lowers a target -/
+theorem saturation_only_reduces (c : Cfg ℝ) (prefTotal prevDp prevVoa : ℝ) (a : AmpIn ℝ) (g pt dp : ℝ) :
+    powerReduction c prefTotal prevDp prevVoa a g pt dp ≤ 0 := by
+  unfold powerReduction
+  split_ifs <;> simp only [pmin_eq, Nat.cast_zero] <;> first | exact min_le_right _ _ | exact min_le_left _ _
+
+/-- **power mode, imposed amplifier model: total design power never exceeds p_max, and the offset is reduced only as
+needed** — no reduction when it fits, and exactly to `p_max` when it does not -/
+theorem saturation_minimal (c : Cfg ℝ) (prefTotal prevDp prevVoa : ℝ) (a : AmpIn ℝ) (g pt dp : ℝ)
+    (hv : (a.user.variety == "") = false) (hm : c.powerMode = true) :
+    prefTotal + (dp + powerReduction c prefTotal prevDp prevVoa a g pt dp) ≤ a.sel.pMax ∧
+    (prefTotal + dp ≤ a.sel.pMax → powerReduction c prefTotal prevDp prevVoa a g pt dp = 0) ∧
+    (a.sel.pMax < prefTotal + dp →
+      prefTotal + (dp + powerReduction c prefTotal prevDp prevVoa a g pt dp) = a.sel.pMax) := by
+  simp only [powerReduction, hv, hm, pmin_eq, Nat.cast_zero, Bool.false_eq_true, if_false, if_true]
+  refine ⟨?_, ?_, ?_⟩
+  · rcases le_total 0 (a.sel.pMax - (prefTotal + dp)) with h | h
+    · rw [min_eq_left h]; linarith
+    · rw [min_eq_right h]; linarith
+  · intro h; exact min_eq_left (by linarith)
+  · intro h; rw [min_eq_right (by linarith)]; ring
+
+/-- gain mode, imposed model: the operator's gain is reduced only when the output estimated by the code exceeds p_max,
+and then exactly to p_max.  The code's estimate `pout` leaves the input VOA out; with `in_voa = 0` it is the real
+output, hence the full statement holds there (`saturation_minimal_gain_mode_no_in_voa`); with `in_voa ≠ 0` the
+reduction is `in_voa` dB too large (`gain_mode_in_voa_over_reduction_fails_current`). -/
+theorem saturation_minimal_gain_mode (c : Cfg ℝ) (prefTotal prevDp prevVoa : ℝ) (a : AmpIn ℝ) (g pt dp : ℝ)
+    (hv : (a.user.variety == "") = false) (hm : c.powerMode = false) :
+    let pout := prefTotal + prevDp - a.nodeLoss - prevVoa + g
+    pout + powerReduction c prefTotal prevDp prevVoa a g pt dp ≤ a.sel.pMax ∧
+    (pout ≤ a.sel.pMax → powerReduction c prefTotal prevDp prevVoa a g pt dp = 0) ∧
+    (a.sel.pMax < pout → pout + powerReduction c prefTotal prevDp prevVoa a g pt dp = a.sel.pMax) := by
+  simp only [powerReduction, hv, hm, pmin_eq, Nat.cast_zero, Bool.false_eq_true, if_false]
+  refine ⟨?_, ?_, ?_⟩
+  · rcases le_total 0 (a.sel.pMax - (prefTotal + prevDp - a.nodeLoss - prevVoa + g)) with h | h
+    · rw [min_eq_left h]; linarith
+    · rw [min_eq_right h]; linarith
+  · intro h; exact min_eq_left (by linarith)
+  · intro h; rw [min_eq_right (by linarith)]; ring
+
+/-- gain mode, operator gain `g`, no input VOA: the design output `pref_total + _delta_p` never exceeds p_max and the
+operator's gain is kept whenever the output it gives fits -/
+theorem saturation_minimal_gain_mode_no_in_voa (c : Cfg ℝ) (pref prefTotal prevDp prevVoa : ℝ) (a : AmpIn ℝ) (g : ℝ)
+    (hv : (a.user.variety == "") = false) (hm : c.powerMode = false) (hg : a.user.gain = some g)
+    (hiv : a.user.inVoa.getD 0 = 0) :
+    prefTotal + (ampStep c pref prefTotal prevDp prevVoa a).dpInt ≤ a.sel.pMax ∧
+    (prefTotal + prevDp - prevVoa - a.nodeLoss + g ≤ a.sel.pMax →
+      (ampStep c pref prefTotal prevDp prevVoa a).gain = g) := by
+  have h := saturation_minimal_gain_mode c prefTotal prevDp prevVoa a g
+    (prefTotal + (prevDp - a.nodeLoss - prevVoa + g - a.user.inVoa.getD 0))
+    (prevDp - a.nodeLoss - prevVoa + g - a.user.inVoa.getD 0) hv hm
+  simp only at h
+  obtain ⟨h1, h2, _⟩ := h
+  constructor
+  · simp only [ampStep, computeTargets, hm, hg, truthy_eq, hiv] at h1 ⊢
+    simp at h1 ⊢
+    linarith
+  · intro hfit
+    have hz := h2 (by linarith)
+    simp only [ampStep, computeTargets, hm, hg, truthy_eq] at hz ⊢
+    simp at hz ⊢
+    rw [hz]
+
+/-- **Current code, open finding gain-mode-in-voa-saturation:** gain mode, operator model with p_max 23, operator gain
+30 dB, `in_voa = 1`: input −1 dBm total → the gain is cut to 24 dB and the amplifier delivers 22 dBm, 1 dB (= in_voa)
+below what p_max allows -/
+theorem gain_mode_in_voa_over_reduction_fails_current :
+    ∃ (c : Cfg ℝ) (pref prefTotal prevDp prevVoa : ℝ) (a : AmpIn ℝ),
+      c.powerMode = false ∧ (a.user.variety == "") = false ∧ a.user.gain = some 30 ∧
+      (ampStep c pref prefTotal prevDp prevVoa a).gain = 24 ∧
+      prefTotal + (ampStep c pref prefTotal prevDp prevVoa a).dpInt = 22 ∧ (22:ℝ) < a.sel.pMax := by
+  refine ⟨{ powerMode := false, dpLo := -2, dpHi := 3, dpStep := 0.5, lossRef := 20, slope := 0.3, voaMargin := 1,
+            voaStep := 0.5, extGain := 2.5 }, 0, 19, -20, 0,
+          { user := { variety := "std_low_gain", gain := some 30, deltaP := none, outVoa := none, inVoa := some 1,
+                      tilt := none },
+            sel := { pMax := 23, gainFlatmax := 16, outVoaAuto := false }, nodeLoss := 0, nextIsRoadm := true,
+            nextLoss := 0 }, rfl, by decide, rfl, ?_, ?_, by norm_num⟩
+  all_goals
+    have hdec : ("std_low_gain" == "") = false := by decide
+    simp only [ampStep, computeTargets, powerReduction, truthy_eq, pmin_eq, pmax_eq, hdec]
+    norm_num
+
+/-- auto-selected model (its p_max / gain_flatmax are inputs, selection is C10): after the reduction the target fits
+the model's power AND its extended gain range, and nothing is reduced when both already fit -/
+theorem saturation_auto_selected (c : Cfg ℝ) (prefTotal prevDp prevVoa : ℝ) (a : AmpIn ℝ) (g pt dp : ℝ)
+    (hv : (a.user.variety == "") = true) :
+    pt + powerReduction c prefTotal prevDp prevVoa a g pt dp ≤ a.sel.pMax ∧
+    g + powerReduction c prefTotal prevDp prevVoa a g pt dp ≤ a.sel.gainFlatmax + c.extGain ∧
+    (pt ≤ a.sel.pMax → g ≤ a.sel.gainFlatmax + c.extGain → powerReduction c prefTotal prevDp prevVoa a g pt dp = 0) := by
+  simp only [powerReduction, hv, if_true, pmin_eq, Nat.cast_zero]
+  set m := min (pt - g + a.sel.gainFlatmax + c.extGain) a.sel.pMax with hmdef
+  have hm1 : m ≤ pt - g + a.sel.gainFlatmax + c.extGain := min_le_left _ _
+  have hm2 : m ≤ a.sel.pMax := min_le_right _ _
+  refine ⟨?_, ?_, ?_⟩
+  · have := min_le_left (m - pt) 0; linarith
+  · have := min_le_left (m - pt) 0; linarith
+  · intro h1 h2
+    apply min_eq_right
+    have : pt ≤ m := le_min (by linarith) h1
+    linarith
+
+/-- **operator-set gains (gain mode) and offsets (power mode) are kept unless the reduction is non-zero** -/
+theorem user_values_kept (c : Cfg ℝ) (pref prefTotal prevDp prevVoa : ℝ) (a : AmpIn ℝ)
+    (hr : (ampStep c pref prefTotal prevDp prevVoa a).reduction = 0) :
+    (∀ g, c.powerMode = false → a.user.gain = some g → (ampStep c pref prefTotal prevDp prevVoa a).gain = g) ∧
+    (∀ d, c.powerMode = true → a.user.deltaP = some d →
+      (ampStep c pref prefTotal prevDp prevVoa a).retDp = d ∧
+      (ampStep c pref prefTotal prevDp prevVoa a).dpInt - (ampStep c pref prefTotal prevDp prevVoa a).outVoa
+        = d - a.user.outVoa.getD 0) := by
+  constructor
+  · intro g hm hg
+    simp only [ampStep, computeTargets, hm, hg] at hr ⊢
+    simp at hr ⊢
+    rw [hr]
+  · intro d hm hd
+    have hn := net_offset c pref prefTotal prevDp prevVoa a
+    have hret : (ampStep c pref prefTotal prevDp prevVoa a).retDp = d := by
+      simp only [ampStep, computeTargets, hm, hd] at hr ⊢
+      cases hg : a.user.gain <;> simp [hg] at hr ⊢ <;> linarith
+    refine ⟨hret, ?_⟩
+    rw [hn, hret]
+    simp only [ampStep, computeTargets, truthy_eq, hm]
+    cases a.user.gain <;> simp
+
+/-- **the operator's output VOA is kept; without VOA optimisation the VOA is 0** -/
+theorem voa_rule (c : Cfg ℝ) (pref prefTotal prevDp prevVoa : ℝ) (a : AmpIn ℝ) :
+    (∀ x, a.user.outVoa = some x → (ampStep c pref prefTotal prevDp prevVoa a).outVoa = x) ∧
+    (a.user.outVoa = none → ¬ (c.powerMode = true ∧ a.sel.outVoaAuto = true) →
+      (ampStep c pref prefTotal prevDp prevVoa a).outVoa = 0) := by
+  constructor
+  · intro x hx; simp [ampStep, hx]
+  · intro hn hna; simp [ampStep, hn, hna]
+
+/-- an automatically set VOA is never negative -/
+theorem voa_nonneg (c : Cfg ℝ) (pref prefTotal prevDp prevVoa : ℝ) (a : AmpIn ℝ) (hn : a.user.outVoa = none) :
+    0 ≤ (ampStep c pref prefTotal prevDp prevVoa a).outVoa := by
+  simp only [ampStep, hn]
+  split_ifs
+  · rw [pmax_eq]; simp
+  · simp
+
+/-- **Current code, defect:** the VOA optimisation rounds to the NEAREST step, so with `voa_margin < voa_step/2` the
+added gain can push the amplifier above p_max although the target fitted before: p_max − target = 0.6 dB,
+step 1, margin 0 → VOA 1 dB, output 0.4 dB above p_max. (Not reachable with the default margin 1 / step 0.5.) -/
+theorem voa_auto_can_exceed_pmax_fails_current :
+    ∃ (c : Cfg ℝ) (pref prefTotal prevDp prevVoa : ℝ) (a : AmpIn ℝ),
+      c.powerMode = true ∧ (a.user.variety == "") = false ∧
+      prefTotal + (ampStep c pref prefTotal prevDp prevVoa a).retDp ≤ a.sel.pMax ∧
+      a.sel.pMax < prefTotal + (ampStep c pref prefTotal prevDp prevVoa a).dpInt := by
+  refine ⟨{ powerMode := true, dpLo := 0, dpHi := 0, dpStep := 0, lossRef := 20, slope := 0.3, voaMargin := 0,
+            voaStep := 1, extGain := 0 }, 0, 0, 0, 0,
+          { user := { variety := "x", gain := none, deltaP := some 0, outVoa := none, inVoa := none, tilt := none },
+            sel := { pMax := 0.6, gainFlatmax := 100, outVoaAuto := true }, nodeLoss := 10, nextIsRoadm := false,
+            nextLoss := 0 }, rfl, by decide, ?_, ?_⟩
+  all_goals
+    have r10 : realRint 10 = 10 := by
+      have := realRint_int_cast 10; simpa using this
+    have r06 : realRint ((3:ℝ) / 5) = 1 := by
+      have := realRint_of_gt_half 0 ((3:ℝ) / 5) (by norm_num) (by norm_num); simpa using this
+    have r1 : realRint 1 = 1 := by
+      have := realRint_int_cast 1; simpa using this
+    have hdec : ("x" == "") = false := by decide
+    simp only [ampStep, computeTargets, powerReduction, truthy_eq, pmin_eq, pmax_eq, round2float, round1, hundredth,
+      rint_real, hdec]
+    norm_num [r10, r06, r1]
+    try norm_num [r10, r06, r1]
+
+/-- the loss the gain computation uses for a padded span (`span_loss(prev_node)` with its cached
+`design_span_loss`) is the loss of the span — so `ref_power_invariant` applies to padded spans as well -/
+theorem nodeLoss_is_true_loss (padding : ℝ) (r : List (Elem ℝ)) (u : String) (p : FiberP ℝ) (v : String)
+    (q : FiberP ℝ) (t : List (Elem ℝ)) (hr : r = .fiber v q :: t) (hl : r.getLast? = some (.fiber u p))
+    (hnr : p.raman = false) :
+    lastSpanLoss (padRun padding r) = runLoss (padRun padding r) := by
+  obtain ⟨p', hl', _, hd⟩ := padRun_dsl padding r u p v q t hr hl hnr
+  unfold lastSpanLoss
+  rw [hl']
+  simp only [Elem.dsl, hd]
+
+/-! ### non-vacuity -/
+
+/-- `ref_power_invariant` applied to a two-amplifier OMS with mixed settings (auto booster, user in-line amplifier
+with delta_p and VOA): hypotheses are satisfiable and the list is not empty -/
+example : ∃ (_c : Cfg ℝ) (steps : List (Step ℝ)) (pref p pd pv : ℝ), steps.length = 2 ∧ p = pref + pd - pv ∧
+    (∀ s ∈ steps, s.trueLoss = s.inp.nodeLoss) := by
+  let c : Cfg ℝ := { powerMode := true, dpLo := -2, dpHi := 3, dpStep := 0.5, lossRef := 20, slope := 0.3,
+                     voaMargin := 1, voaStep := 0.5, extGain := 2.5 }
+  let a1 : AmpIn ℝ := { user := newEdfa, sel := { pMax := 23, gainFlatmax := 26, outVoaAuto := false },
+                        nodeLoss := 0, nextIsRoadm := false, nextLoss := 16 }
+  let a2 : AmpIn ℝ := { user := { variety := "std_low_gain", gain := some 15, deltaP := some 1, outVoa := some 1,
+                                  inVoa := none, tilt := none },
+                        sel := { pMax := 23, gainFlatmax := 16, outVoaAuto := false },
+                        nodeLoss := 16, nextIsRoadm := true, nextLoss := 0 }
+  exact ⟨c, [⟨0, a1⟩, ⟨16, a2⟩], 0, -20, -20, 0, rfl, by norm_num, by simp [a1, a2]⟩
+
+/-- the range hypothesis of `targetPower_range` and the step hypothesis of `dp_rule_rounding` hold for the shipped
+configuration `[-2, 3, 0.5]` -/
+example : (-2:ℝ) ≤ 3 ∧ (1:ℝ) / 100 ≤ round1 (1 / 2) := by
+  constructor
+  · norm_num
+  · have : realRint ((1:ℝ) / 2 * 10) = 5 := by
+      have := realRint_int_cast 5; norm_num at this ⊢; exact this
+    simp only [round1, rint_real, Nat.cast_ofNat, this]; norm_num
+
+end Gnpy.Chain
